@@ -1,0 +1,15 @@
+//go:build verif
+
+package dns_naming
+
+import "github.com/irai/packet"
+
+// VerifNew is New without the three multicast listening sockets (none of the
+// Process*/Send* paths uses them), so that checks do not bind UDP ports.
+func VerifNew(session *packet.Session) *DNSHandler {
+	h := new(DNSHandler)
+	h.session = session
+	h.DNSTable = make(map[string]packet.DNSEntry, 256)
+	h.mdnsCache = make(map[string]cache)
+	return h
+}
